@@ -36,7 +36,7 @@ RULE = (
 )
 ASSUMPTIONS = [
     "stations A,B,C(,D) with distinct phase angles/voltages; expression alphabet of 25 shapes (builtin and numpy scalars); limits are functions of the operation (finite state space)",
-    "time_indices are given in ascending order (for those 'as requested' and 'network order' coincide); constraint names at most one duplicate deep (documented _v2 rule)",
+    "time_indices are given in ascending order (for those 'as requested' and 'network order' coincide); a name may be taken more than once over (name, name_v2, then whatever the library invents - or a refusal that leaves the table untouched): two rows may then carry the same name, removal by name takes the first",
     "registering an EVSE after ALL constraints were removed again is left unspecified by the property: refusal and acceptance are both allowed, the state must stay consistent",
     "bounded depth; canonical state merges operation sequences leading to equal (station order, rows): the network's future depends on nothing else",
 ]
